@@ -45,23 +45,25 @@ def long_cases():
 
 def design(ck):
     quick = ck.tier == "quick"
-    jobs = [("design-proposal", "MCProposal.cfg", dict(MaxN=4, PLens="{1, 2, 4}", Ks="{0, 2}") if quick else dict(MaxN=5), 170 if quick else 1100),
-            ("design-committee", "MCCommittee.cfg", dict(MaxN=4) if quick else dict(MaxN=6), 170 if quick else 900),
+    jobs = [("design-proposal", "MCProposal.cfg", dict(MaxN=4, PLens="{1, 2, 4}", Ks="{0, 2}") if quick else dict(MaxN=4), 600 if quick else 1500),
+            ("design-committee", "MCCommittee.cfg", dict(MaxN=4) if quick else dict(MaxN=6), 600 if quick else 1500),
             # non-vacuity: named deviations of the reference must break a clause
-            ("mutant-no_collapse", "MCProposal.cfg", dict(MaxN=3, Dev='"no_collapse"'), 120),
-            ("mutant-base_from_head", "MCProposal.cfg", dict(MaxN=3, Dev='"base_from_head"'), 120),
-            ("mutant-lookback_off_by_one", "MCProposal.cfg", dict(MaxN=3, Dev='"lookback_off_by_one"'), 120),
-            ("mutant-no_freshness", "MCProposal.cfg", dict(MaxN=3, Dev='"no_freshness"'), 120),
-            ("mutant-committee_plus1", "MCCommittee.cfg", dict(MaxN=3, Dev='"committee_plus1"'), 120)]
-    ncases = 600 if quick else 6000
-    jobs.append(("cases", "MCCases.cfg", dict(NCases=ncases), 170 if quick else 900))
+            ("mutant-no_collapse", "MCProposal.cfg", dict(MaxN=3, Dev='"no_collapse"'), 400),
+            ("mutant-base_from_head", "MCProposal.cfg", dict(MaxN=3, Dev='"base_from_head"'), 400),
+            ("mutant-lookback_off_by_one", "MCProposal.cfg", dict(MaxN=3, Dev='"lookback_off_by_one"'), 400),
+            ("mutant-no_freshness", "MCProposal.cfg", dict(MaxN=3, Dev='"no_freshness"'), 400),
+            ("mutant-committee_plus1", "MCCommittee.cfg", dict(MaxN=3, Dev='"committee_plus1"'), 400)]
+    if not quick:   # 5-tipset trees with the boundary values of every parameter
+        jobs.insert(1, ("design-proposal5", "MCProposal.cfg", dict(MaxN=5, HLs="{0, 1}", PLens="{2, 4}", Ks="{0, 2}"), 1500))
+    ncases = 600 if quick else 3000
+    jobs.append(("cases", "MCCases.cfg", dict(NCases=ncases), 600 if quick else 1500))
     with ThreadPoolExecutor(max_workers=4) as ex:
         futs = {}
         for tag, base, subst, to in jobs:
             kw = dict(seed=ck.seed, workers=1) if tag == "cases" else dict(workers=4)
             futs[tag] = ex.submit(run_cfg, ck, tag, base, to, **kw, **subst)
         res = {tag: f.result() for tag, f in futs.items()}
-    for tag in ("design-proposal", "design-committee"):
+    for tag in [t for t in res if t.startswith("design-")]:
         ck.require_tlc_ok(tag, res[tag])
         ck.add_tlc(tag, res[tag], note="input space enumerated as states; every C15 clause evaluated on the reference's output")
     for tag, r in res.items():
@@ -156,7 +158,7 @@ def run(ck):
     with open(trace, "a") as fh:
         fh.write('{"ev":"End"}\n')      # clauses are evaluated one line late (see ConsensusInputsTrace.tla)
     r, events = vlib.validate_trace(ck, SPECDIR, "ConsensusInputsTrace", "ConsensusInputsTrace.cfg", trace, "seed%d" % ck.seed,
-                                    timeout=170 if ck.tier == "quick" else 1100,
+                                    timeout=600 if ck.tier == "quick" else 2400,
                                     count_traces=lambda ev: sum(1 for e in ev if e["ev"] in ("Case", "Begin")))
     st = stats(events)
     ck.cov["event_counts"] = st
@@ -182,7 +184,7 @@ def run(ck):
 
 MANIFEST = dict(
     text=("TLC enumerates EC block trees (<=4-5 tipsets exhaustively, forks, null rounds) x head x base tipset (behind/at/ahead, on/off the head's chain) "
-          "x head look-back 0-2 x proposal length 1-4 x clock around the freshness boundary x 0-2 certificates, and all certificate histories "
+          "x head look-back 0-2 x proposal length 1-4 x clock around the freshness boundary x 0-2 certificates (5 tipsets: boundary parameter values, thorough tier), and all certificate histories "
           "(<=4 certificates, look-back 2-3, initial instance 0-2) and checks the clauses of C15 on ConsensusInputs.tla; named deviations of the "
           "reference must break a clause. The production gpbftInputs (consensus_inputs.go) is then run over an ec.Backend serving TLC-drawn trees "
           "(<=7 tipsets) with real certificates in a real certstore, on two nodes with different heads, and a real gpbft.Participant is started on "
